@@ -53,8 +53,45 @@ class _Heads(nn.Module):
         return [h(x) for h in self.heads]
 
 
+class _Twice(nn.Module):
+    """one Linear applied twice in a forward (weight tying / module re-use): the second call is fed the module's own quantized output"""
+
+    def __init__(self):
+        super().__init__()
+        self.a = nn.Linear(8, 8)
+
+    def forward(self, x):
+        return self.a(self.a(x))
+
+
+# models quantized in two steps with different 8-bit activation qtypes: the first module's quantized output feeds a module of another qtype
+MIXED = {"mixed_lin_lin": lambda: [nn.Linear(8, 6), nn.Linear(6, 4)], "mixed_lin_ln": lambda: [nn.Linear(8, 6), nn.LayerNorm(6)]}
+EXTRA_MODELS = ["lin_twice", "mixed_lin_lin", "mixed_lin_ln"]
+
+
+def _quantize_model(model, name, aname):
+    from optimum.quanto import quantize
+
+    if name in MIXED:
+        other = "qfloat8_e4m3fn" if aname == "qint8" else "qint8"
+        quantize(model, include="0", weights=num.qt("qint8"), activations=num.qt(other))
+        quantize(model, include="1", weights=num.qt("qint8"), activations=num.qt(aname))
+    else:
+        quantize(model, weights=num.qt("qint8"), activations=num.qt(aname))
+
+
 def _build(name, dt):
     torch.manual_seed(0)
+    if name == "lin_twice":
+        m = _Twice()
+        for k, p in enumerate(m.parameters()):
+            models._fill(p, k)
+        return m.to(dt).eval()
+    if name in MIXED:
+        m = nn.Sequential(*MIXED[name]())
+        for k, p in enumerate(m.parameters()):
+            models._fill(p, k)
+        return m.to(dt).eval()
     if name == "heads160":
         m = _Heads()
         for k, p in enumerate(m.parameters()):
@@ -135,6 +172,10 @@ def plan(tier, seed):
     for aname in num.Q8:
         for mom in (0.5, 0.9):
             tasks.append({"model": "heads160", "a": aname, "momentum": mom, "streamline": False, "dt": "float32", "tier": tier, "kinds": ["unit", "x10", "x0.1"], "L": 3, "stale_check": True})
+    for name in EXTRA_MODELS:
+        for aname in num.Q8:
+            for mom in (0.5, 0.9) if tier == "quick" else MOMENTA:
+                tasks.append({"model": name, "a": aname, "momentum": mom, "streamline": False, "dt": "float32", "tier": tier})
     for name in BIG_SHAPES:
         for aname in num.Q8:
             for mom in ((0.5,) if tier == "quick" else (0.0, 0.5, 0.9)):
@@ -161,17 +202,20 @@ def _run_history(task, seq, split, out, only=False):
 
     name, aname, mom, dtname = task["model"], task["a"], task["momentum"], task["dt"]
     dt = num.DTYPES[dtname]
-    qmax = num.float8.QMAX[aname]
     u = num.UNIT[dtname]
     model = _build(name, dt)
-    quantize(model, weights=num.qt("qint8"), activations=num.qt(aname))
+    _quantize_model(model, name, aname)
     qmods = [(n, m) for n, m in model.named_modules() if isinstance(m, QModuleMixin)]
+    mq = {n: (num.float8.QMAX[m.activation_qtype.name], m.activation_qtype) for n, m in qmods}  # per module: modules may differ in qtype
     captured = {}
 
+    # one record per *call* (a module may be applied several times in one forward); the module's input scale is read at call time:
+    # Calibration's global pre-hook has already run when a module-level pre-hook fires
     def mk_hook(n):
         def hook(mod, args):
             x = args[0]
-            captured[n] = (x.dequantize().detach().clone(), x._scale.detach().clone()) if isinstance(x, QBytesTensor) else (x.detach().clone(), None)
+            sc_now = mod.input_scale.detach().clone()
+            captured.setdefault(n, []).append((x.dequantize().detach().clone(), x._scale.detach().clone(), sc_now) if isinstance(x, QBytesTensor) else (x.detach().clone(), None, sc_now))
         return hook
 
     handles = [m.register_forward_pre_hook(mk_hook(n)) for n, m in qmods]
@@ -202,36 +246,38 @@ def _run_history(task, seq, split, out, only=False):
                         if r["exempt"] or not active_before[n] or n not in captured:
                             r["exempt"] = r["exempt"] or not active_before[n]
                             continue
-                        xin, xscale = captured[n]
-                        first = bi == 0
-                        if xscale is not None:
-                            r["in"] = float(xscale.to(torch.float64).max())  # adopts the scale of an already quantized input
-                        else:
-                            tgt = float(xin.to(torch.float64).abs().max()) / qmax
-                            if not first and r["in"] == 1.0:
-                                r["unit_hit"] = True
-                            r["in"] = _ema(r["in"], tgt, mom, first)
-                        # raw output recomputed with the float functional on the dequantized weight
-                        wdq = m.qweight.dequantize() if m.weight_qtype is not None else m.weight
-                        if isinstance(m, nn.LayerNorm):
-                            xu = xin
-                            raw = F.layer_norm(xu, m.normalized_shape, m.weight, m.bias, m.eps)
-                        else:
-                            if xscale is None:
-                                # the raw output of this batch is defined relative to the input the module actually saw, i.e. quantized
-                                # with the module's own current input scale (judged separately against the averaging law): with the
-                                # coarse float8 grids a last-bit difference between the reference average and the buffer would
-                                # otherwise flip input codes and move the output range by a few percent
-                                xu = quantize_activation(xin, num.qt(aname), m.input_scale.detach().clone()).dequantize()
+                        qmax, mqt = mq[n]
+                        r["calls_in_batch"] = len(captured[n])
+                        for xin, xscale, sc_now in captured[n]:
+                            first = r["out"] is None  # no update of this module yet (its first call of the first batch)
+                            if xscale is not None:
+                                r["in"] = float(xscale.to(torch.float64).max())  # adopts the scale of an already quantized input
                             else:
+                                tgt = float(xin.to(torch.float64).abs().max()) / qmax
+                                if r["in"] is not None and r["in"] == 1.0:
+                                    r["unit_hit"] = True
+                                r["in"] = _ema(r["in"], tgt, mom, r["in"] is None)
+                            # raw output recomputed with the float functional on the dequantized weight
+                            wdq = m.qweight.dequantize() if m.weight_qtype is not None else m.weight
+                            if isinstance(m, nn.LayerNorm):
                                 xu = xin
-                            raw = F.linear(xu, wdq, m.bias) if isinstance(m, nn.Linear) else F.conv2d(xu, wdq, m.bias, m.stride, m.padding, m.dilation, m.groups)
-                        tgt = float(raw.to(torch.float64).abs().max()) / qmax
-                        if not first and r["out"] == 1.0:
-                            r["unit_hit"] = True
-                        r["out"] = _ema(r["out"], tgt, mom, first)
-                        r["last_in_absmax"] = float(xin.to(torch.float64).abs().max())
-                        r["last_raw_absmax"] = float(raw.to(torch.float64).abs().max())
+                                raw = F.layer_norm(xu, m.normalized_shape, m.weight, m.bias, m.eps)
+                            else:
+                                if xscale is None:
+                                    # the raw output of this batch is defined relative to the input the module actually saw, i.e. quantized
+                                    # with the module's own current input scale (judged separately against the averaging law): with the
+                                    # coarse float8 grids a last-bit difference between the reference average and the buffer would
+                                    # otherwise flip input codes and move the output range by a few percent
+                                    xu = quantize_activation(xin, mqt, sc_now).dequantize()
+                                else:
+                                    xu = xin
+                                raw = F.linear(xu, wdq, m.bias) if isinstance(m, nn.Linear) else F.conv2d(xu, wdq, m.bias, m.stride, m.padding, m.dilation, m.groups)
+                            tgt = float(raw.to(torch.float64).abs().max()) / qmax
+                            if not first and r["out"] == 1.0:
+                                r["unit_hit"] = True
+                            r["out"] = _ema(r["out"], tgt, mom, first)
+                            r["last_in_absmax"] = float(xin.to(torch.float64).abs().max())
+                            r["last_raw_absmax"] = float(raw.to(torch.float64).abs().max())
                     bi += 1
             # leaving the context: modules disabled by streamlining become exempt
             for n, m in qmods:
@@ -270,7 +316,9 @@ def _run_history(task, seq, split, out, only=False):
                     continue
             if not (abs(got - want) <= tol):
                 out["violations"].append(violation(PID, case, f, f"{which}: module {n} ({type(m).__name__}) has {which}={got!r} after history {seq} (split {split}, momentum {mom}, {aname}); the momentum average of absmax/qmax is {want!r}"))
-        if len(seq) == 1:
+        # (a module applied twice in the forward has averaged two updates after one batch: the no-saturation clause is about one update)
+        if len(seq) == 1 and r.get("calls_in_batch") == 1:
+            qmax = mq[n][0]
             for which, amax, sc in (("input", r.get("last_in_absmax"), m.input_scale), ("output", r.get("last_raw_absmax"), m.output_scale)):
                 s = float(sc.to(torch.float64))
                 if amax is not None and amax > (s + num.QSUB[dtname]) * qmax * (1 + 8 * u):
